@@ -160,6 +160,11 @@ class Obj(TypeDesc):
         self.cls, self.fields = cls, fields
 
 
+class SubObj(Obj):
+    """Like Obj, but at call sites objects of subclasses are accepted too (for methods that use nothing a subclass overrides:
+    stated by the contract author, listed in the evidence as an assumption of the call site)."""
+
+
 class ListOf(TypeDesc):
     """List of concrete length n with elements of type elem."""
 
